@@ -28,6 +28,7 @@ import (
 //
 //	KA r|l <conn> <sess> <ping>   a session dies and, 100ms later, an attempt becomes possible
 //	C                             one RPC through the MultiClientConn
+//	I                             a quiet period longer than the channel's idle timeout (header idle=1)
 //
 // after every event: "= sessions=<ids> dialable=<ids> can=<0|1>" (+ " rpc=<code>" for C)
 func vcScenario(lines []string, out func(string)) {
@@ -39,7 +40,13 @@ func vcScenario(lines []string, out func(string)) {
 	}
 	ctx, cancel := context.WithCancel(context.Background())
 	defer cancel()
-	mcc, err := grpcutil.NewMultiClientConn(ctx, "verif-mcc", grpcutil.MakeDialOptions(nil, metrics.GetGRPCClientMetrics("outbound"))...)
+	dialOpts := grpcutil.MakeDialOptions(nil, metrics.GetGRPCClientMetrics("outbound"))
+	if len(f0) > 3 && f0[3] == "idle=1" {
+		// gRPC lets a channel go idle after a period without RPCs (30 minutes by default) and rebuilds its resolver on the
+		// next call; a short period stands in for it
+		dialOpts = append(dialOpts, grpc.WithIdleTimeout(300*time.Millisecond))
+	}
+	mcc, err := grpcutil.NewMultiClientConn(ctx, "verif-mcc", dialOpts...)
 	if err != nil {
 		out("SETUP error " + err.Error())
 		return
@@ -111,6 +118,10 @@ func vcScenario(lines []string, out func(string)) {
 			var a vmAttempt
 			fmt.Sscanf(f[2]+" "+f[3]+" "+f[4], "%d %d %d", &a.conn, &a.sess, &a.ping)
 			env.offers <- a
+			return true
+		case "I":
+			// a quiet period longer than the idle timeout
+			time.Sleep(900 * time.Millisecond)
 			return true
 		case "C":
 			var pre []string
